@@ -289,6 +289,9 @@ class Explorer:
                     self.envs.append(env)
             return [env]
         if isinstance(s, (ast.Continue, ast.Break)):
+            # the way out of a loop body that is explored on its own
+            self.outcomes.append(("continue" if isinstance(s, ast.Continue) else "break", s, None))
+            self.envs.append(env)
             return []
         raise AnalysisError(f"partial evaluation of {self.fn.qualname}: statement {type(s).__name__} not supported")
 
